@@ -1,6 +1,5 @@
 import SemverProofs.GenEquiv.Version
 import SemverModel.Progress
-import SemverProofs.Lemmas.Locality
 /-!
 # The parsers extracted from `src/lib.rs` are the model's parsers
 
